@@ -8,11 +8,7 @@ EXTENDS Universe, Json
 CONSTANT TypeSet
 VARIABLE x
 
-TS == CASE TypeSet = "small1" -> Types1Small \cup SerOnly(LeavesSmall)
-        [] TypeSet = "quick1" -> Types1Quick \cup SerOnly(LeavesQuick)
-        [] TypeSet = "full1"  -> Types1Full \cup SerOnly(LeavesFull)
-        [] TypeSet = "small2" -> Types2Small \cup SerOnly(LeavesSmall)
-        [] TypeSet = "all"    -> Types1Full \cup Types2Small \cup SerOnly(LeavesFull)
+TS == TypesOf(TypeSet) \cup SerOnlyOf(TypeSet)
 
 TypeInfo(t) ==
   [rec |-> "type", key |-> Key(t), rkey |-> Key(Norm(t)), desc |-> t,
